@@ -83,11 +83,19 @@ m('fm-add-after-send', 'R07f', FM,
 				}
 				wg.Add(1)''')
 m('fm-no-wait', 'R07f', FM,
-  '''		case <-waitCh: // Everything in the waitgroup has finished.
-		}''',
-  '''		case <-waitCh: // Everything in the waitgroup has finished.
+  '''				return errMissingBlob
+			}
+		}
+	}
+
+	return nil''',
+  '''				return errMissingBlob
+			}
 		default:
-		}''')
+		}
+	}
+
+	return nil''')
 m('fm-failfast-flag-plain-bool', 'R07e', FM,
   '''		cancelContextForFailFast = func() {
 			// Indicate that we were canceled so that we can fail fast.
